@@ -334,6 +334,13 @@ def D29():
     return res == [True, True, True, True], res
 
 
+def D30():
+    d = doc(p(em("a"), " ", out["strong"]("b")))
+    html = str(DOMSerializer.from_schema(test_schema).serialize_fragment(d.content))
+    back = Node.from_json(test_schema, from_html(test_schema, html))
+    return back.eq(d), f"{html} -> {back}"
+
+
 ALL = {k: v for k, v in list(globals().items()) if k[0] == "D" and k[1:].isdigit()}
 
 if __name__ == "__main__":
